@@ -54,6 +54,12 @@ LADDERS2 = [("a[%s]", "0", "a=(0 0 0); echo $(( %s ))"), ("${a[%s]}", "0", "a=(0
             ("$((%s))", "1", "echo %s"), ("${!%s}", "x", "x=x; echo %s"), ("a[%s]=1", "0", "%s; echo ${#a[@]}"), ("time %s", "true", "%s"), ("coproc_free() { %s; }", ":", "%s")]
 
 
+# open finding C01-F5: left unterminated, nests of these shapes are parsed in exponential time where the text reaches the word /
+# arithmetic / pattern parsers without passing the tokenizer (prompt expansion, ${v@P}); their open variants are not generated
+OPEN_OK = {"$((%s))": False, "@(%s|y)": False, "!(%s)": False, "+(%s)": False, "*(%s)": False, "${a[$((%s))]}": False, "$(%s)": False, "\"$(%s)\"": False,
+           "<(%s)": False}
+
+
 def ladder_scripts():
     out = []
     for tpl in LADDERS:
@@ -82,6 +88,16 @@ def ladder_scripts():
                 s = tpl % s
             if len(s) <= 20000:
                 out.append(outer % s if "%s" in outer else outer)
+                # the same nest left open (cut just after the innermost operand): an unterminated construct must be rejected
+                # as fast as a terminated one is accepted
+                if OPEN_OK.get(tpl, True):
+                    cut = s.find(base, len(s) // 2 - len(base))
+                    if cut > 0:
+                        out.append((outer % s[:cut + len(base)]) if "%s" in outer else outer)
+    # unclosed parentheses followed by a word (subshell / arithmetic ambiguity)
+    for depth in (4, 12, 24, 34, 64):
+        out.append("(" * depth + "a")
+        out.append("echo x; " + "( " * depth + "e m 0")
     return out
 
 
@@ -545,6 +561,10 @@ def run(run):
     lines = mutate.corpus_lines(rng, int((1200 if quick else 40000) * scale))
     lines += [s for o, s in items if o in ("boundary", "ladder") and "\n" not in s][: int((800 if quick else 20000) * scale)]
     lines += [s for o, s in items if o == "template"][: int((1500 if quick else 40000) * scale)]
+    # the deep end of the nesting ladders must reach the line-editor entry points in the quick tier too
+    deep = [s for o, s in items if o == "ladder" and "\n" not in s and len(s) > 150]
+    rng.shuffle(deep)
+    lines += deep[: int((150 if quick else 5000) * scale)]
     inproc_layer(run, lines)
     if not quick:
         asan_layer(run, items, pool)
